@@ -70,6 +70,36 @@ def hist_masters():
             {"xkey": hdscen.root_xkey({"k": k1, "chain": c1, "depth": 2, "index": 7, "pfp": "0a0b0c0d"})}]
 
 
+def _ev_req(i):
+    """distinct (application, parameter, index) prefixes"""
+    kinds = [("pwd", 20 + i // 3, 1), ("hex", 16 + i // 3, 0), ("mnemonic", (12, 15, 18, 21, 24)[(i // 3) % 5], i // 15)]
+    return list(kinds[i % 3])
+
+
+class OneObjectHistories:
+    """many requests on ONE long-lived BIP85 object; the last one is judged. canon = the history."""
+
+    def ops(self, hist):
+        return [_ev_req(i) for i in range(6)]
+
+    def run(self, hist):
+        b, node = mk(hist_masters()[0])
+        out = None
+        for app, param, idx in hist:
+            f, rf = APPS[app]
+            st, got = attempt(f, b, param, idx)
+            out = (app, param, idx, st, got)
+        if not hist:
+            return {"canon": hist, "viols": [], "label": "init"}
+        app, param, idx, st, got = out
+        exp = APPS[app][1](node, param, idx)
+        viols = []
+        if st != "ok" or got != exp:
+            viols.append(V("%s:%s:one-object-history:wrong-value" % (P, app), "after %d earlier requests on the same BIP85 object, %s(param=%r, index=%r) is wrong" % (
+                len(hist) - 1, app, param, idx), str(got)[:60], str(exp)[:60]))
+        return {"canon": hist, "viols": viols, "label": "violation" if viols else "value-ok"}
+
+
 class CrossMasterHistories:
     """sequences of BIP85 requests against several masters that share key or chain code, in ONE process; each answer
     must equal the reference for its own master. canon = the history itself (module-level caches are unobservable)."""
@@ -95,7 +125,8 @@ class CrossMasterHistories:
 def execute(case):
     k = case.get("k")
     if "hist" in case:
-        r = isolated(CrossMasterHistories().run, case["hist"])
+        model = OneObjectHistories() if case.get("layer", "").startswith("one-object") else CrossMasterHistories()
+        r = isolated(model.run, case["hist"])
         for v in r["viols"]:
             v["case"] = case
         return R(r["label"], viols=r["viols"])
@@ -191,4 +222,9 @@ def run(ctx):
     ctx.product("out-of-range", bad, execute)
     from ..bfs import bfs
     bfs(ctx, "cross-master-request-histories", CrossMasterHistories(), 3 if ctx.thorough else 2)
+    from ..bfs import long_histories
+    long_histories(ctx, "cross-master-request-histories+long", CrossMasterHistories(), rotations=6 if ctx.thorough else 3, rounds=1)
+    from ..bfs import eviction_probe
+    eviction_probe(ctx, "one-object-request-revisits", OneObjectHistories(), _ev_req,
+                   sizes=(1, 2, 3, 4, 5, 8, 9, 16, 17, 32, 33) + ((64, 65, 128) if ctx.thorough else ()))
     return {"masters": len(ms), "indexes": idxs}
